@@ -177,6 +177,23 @@ func c05GenSeq(r *verifh.Rng) []verifh.Section {
 		secs = append(secs, verifh.Section{Cfg: fmt.Sprintf("kind=pool mode=seq n=%d maxage=%d breach=%d", n, maxage, b),
 			Ops: c05PoolOps(r, n, maxage, r.Range(8, 36), breach)})
 	}
+	// several objects alive at once (2-4 instances, equal and different capacities), ops interleaved: every
+	// instance is checked against its own n
+	for i := 0; i < verifh.Scale(10, 150); i++ {
+		kind := r.PickS("limit", "limit", "tlimit")
+		k := r.Range(2, 4)
+		var ns []int
+		var lists [][]string
+		for j := 0; j < k; j++ {
+			n := pickN()
+			if j > 0 && r.Chance(1, 2) {
+				n = ns[0] // same capacity as the first one: a cache keyed by n would alias them
+			}
+			ns = append(ns, n)
+			lists = append(lists, c5.SeqOps(r, n, r.Range(6, 24), true, ret))
+		}
+		secs = append(secs, verifh.Section{Cfg: fmt.Sprintf("kind=%s mode=seq ns=%s", kind, c5.MultiNs(ns)), Ops: c5.MultiOps(r, lists)})
+	}
 	// thorough tier: exhaustive small scopes (every op sequence of the given length)
 	if verifh.Thorough() {
 		for _, n := range []int{1, 2} {
@@ -739,7 +756,11 @@ func TestVerifC05SyncxSeq(t *testing.T) { c05RunSyncx(t, verifh.Sections(c05GenS
 func TestVerifC05SyncxConc(t *testing.T) { c05RunSyncx(t, verifh.Sections(c05GenConc)) }
 
 func c05RunSyncx(t *testing.T, secs []verifh.Section) {
-	verifh.Run(t, secs, func(cfg verifh.Cfg) (func(op []string) string, func()) {
+	var start func(cfg verifh.Cfg) (func(op []string) string, func())
+	start = func(cfg verifh.Cfg) (func(op []string) string, func()) {
+		if cfg.Str("ns", "") != "" {
+			return c5.Multi(cfg, start)
+		}
 		switch cfg.Str("kind", "") {
 		case "limit":
 			return c05StartLimit(cfg)
@@ -749,5 +770,6 @@ func c05RunSyncx(t *testing.T, secs []verifh.Section) {
 			return c05StartPool(cfg)
 		}
 		return func([]string) string { return "bad-kind" }, nil
-	})
+	}
+	verifh.Run(t, secs, start)
 }
